@@ -264,6 +264,80 @@ Proof.
     apply Hnl. apply Hsame. apply (Hcov v l Hin Hll Hvl).
 Qed.
 
+(* ---- which variables are summed: exactly those outside the remaining cliques, each once ------------------ *)
+Lemma pvars_spec rem erem order rem' erem' : peels D t rem erem order rem' erem' ->
+  (forall i, In i rem -> i < length (cliques D t)) ->
+  (forall v, In v (pvars D card t st order) ->
+     (exists l, In l rem /\ In v (clq D t l)) /\ (forall i, In i rem' -> ~ In v (clq D t i))) /\
+  (forall v i, In i rem -> In v (clq D t i) ->
+     In v (pvars D card t st order) \/ exists j, In j rem' /\ In v (clq D t j)) /\
+  NoDup (pvars D card t st order).
+Proof.
+  induction 1 as [rem erem|rem erem l p k order rem' erem' Hs Hp IH]; intros Hlt.
+  - split; [intros v []|]. split; [|constructor]. intros v i Hi Hv. right. exists i. auto.
+  - assert (Hlt' : forall i, In i (remn l rem) -> i < length (cliques D t)).
+    { intros i Hi. apply In_remn in Hi. apply Hlt. apply Hi. }
+    destruct (IH Hlt') as [IH1 [IH2 IH3]]. clear IH.
+    destruct Hs as [Hl [Hpin [Hlp [_ [_ [_ Hrip]]]]]].
+    assert (Hll : l < length (cliques D t)) by (apply Hlt; exact Hl).
+    assert (Hpv : forall v, In v (pv1 D card t st l p) <-> In v (clq D t l) /\ ~ In v (clq D t p)).
+    { intros v. apply (In_pv1 D card t st HI l p v Hll). }
+    cbn [pvars]. split; [|split].
+    + intros v Hv. apply in_app_or in Hv. destruct Hv as [Hv|Hv].
+      * destruct (IH1 v Hv) as [[l' [Hl' Hvl']] Hno]. split; [|exact Hno]. exists l'. apply In_remn in Hl'. split; tauto.
+      * apply Hpv in Hv. destruct Hv as [Hvl Hvp]. split; [exists l; auto|].
+        intros i Hi Hvi. apply (peels_incl _ _ _ _ _ Hp) in Hi. apply In_remn in Hi. destruct Hi as [Hi Hil].
+        apply Hvp. apply (Hrip i Hi Hil v Hvl Hvi).
+    + intros v i Hi Hv. destruct (Nat.eq_dec i l) as [->|Hne].
+      * destruct (in_dec Nat.eq_dec v (clq D t p)) as [Hvp|Hvp].
+        -- assert (Hp' : In p (remn l rem)) by (apply In_remn; split; [exact Hpin|congruence]).
+           destruct (IH2 v p Hp' Hvp) as [H|H]; [left; apply in_or_app; left; exact H|right; exact H].
+        -- left. apply in_or_app. right. apply Hpv. split; assumption.
+      * assert (Hi' : In i (remn l rem)) by (apply In_remn; split; assumption).
+        destruct (IH2 v i Hi' Hv) as [H|H]; [left; apply in_or_app; left; exact H|right; exact H].
+    + apply NoDup_app_disj; [exact IH3| |].
+      * unfold pv1, vinter. apply NoDup_filter. apply (inv_wf D card t st HI l Hll).
+      * intros v Hv Hv2. apply Hpv in Hv2. destruct Hv2 as [Hvl Hvp].
+        destruct (IH1 v Hv) as [[l' [Hl' Hvl']] _]. apply In_remn in Hl'. destruct Hl' as [Hl' Hne].
+        apply Hvp. apply (Hrip l' Hl' Hne v Hvl Hvl').
+Qed.
+
+Lemma In_all_vars v : In v (all_vars D t) <-> exists i, i < length (cliques D t) /\ In v (clq D t i).
+Proof.
+  unfold all_vars. rewrite In_scope_of. split; intros [i [Hi Hv]]; exists i; (split; [|exact Hv]).
+  - apply in_seq in Hi. lia.
+  - apply in_seq. lia.
+Qed.
+
+Theorem summed_vars_enumerate Q ev sub order rem esub :
+  peels D t (all_cl D t) (all_ed D t) order rem esub ->
+  (forall i, In i rem <-> In i sub) ->
+  NoDup (query_elim D t sub Q ev) ->
+  (forall v i, In v (Q ++ map fst ev) -> i < length (cliques D t) -> In v (clq D t i) -> In i sub) ->
+  enumerates_complement (query_elim D t sub Q ev ++ pvars D card t st order) (all_vars D t) (Q ++ map fst ev).
+Proof.
+  intros Hpeel Hsame Hnd Hcov.
+  assert (Hlt0 : forall i, In i (all_cl D t) -> i < length (cliques D t)) by (intros i Hi; apply in_seq in Hi; lia).
+  destruct (pvars_spec _ _ _ _ _ Hpeel Hlt0) as [P1 [P2 P3]].
+  assert (Hsublt : forall i, In i sub -> i < length (cliques D t)).
+  { intros i Hi. apply Hsame in Hi. apply (peels_incl _ _ _ _ _ Hpeel) in Hi. apply Hlt0. exact Hi. }
+  assert (Helim : forall v, In v (query_elim D t sub Q ev) <->
+            (exists i, In i sub /\ In v (clq D t i)) /\ ~ In v Q /\ ~ In v (map fst ev)).
+  { intros v. unfold query_elim. rewrite !In_vminus, In_scope_of. tauto. }
+  split.
+  - apply NoDup_app_disj; [exact Hnd|exact P3|]. intros v Hv Hv2. apply Helim in Hv.
+    destruct Hv as [[i [Hi Hvi]] _]. apply (proj2 (P1 v Hv2) i); [apply Hsame; exact Hi|exact Hvi].
+  - intros v. rewrite in_app_iff, (Helim v), In_all_vars, in_app_iff. split.
+    + intros [[[i [Hi Hvi]] [HQ Hev]]|Hv].
+      * split; [exists i; split; [apply Hsublt; exact Hi|exact Hvi]|tauto].
+      * destruct (P1 v Hv) as [[l [Hl Hvl]] Hno]. split; [exists l; split; [apply Hlt0; exact Hl|exact Hvl]|].
+        intros HQE. apply (Hno l); [|exact Hvl]. apply Hsame. apply (Hcov v l); [apply in_or_app; exact HQE|apply Hlt0; exact Hl|exact Hvl].
+    + intros [[i [Hi Hvi]] HnQE].
+      assert (Hi' : In i (all_cl D t)) by (apply in_seq; lia).
+      destruct (P2 v i Hi' Hvi) as [H|[j [Hj Hvj]]]; [right; exact H|].
+      left. split; [exists j; split; [apply Hsame; exact Hj|exact Hvj]|tauto].
+Qed.
+
 (* ---- the run-time certificate gives all of the above --------------------------------------------------- *)
 Theorem query_cert_sound Q ev r : query_cert D card t Q ev r = true ->
   exists order rem esub ks,
@@ -273,7 +347,7 @@ Theorem query_cert_sound Q ev r : query_cert D card t Q ev r = true ->
     (forall i, In i rem <-> In i (q_sub D r)) /\
     (forall e, In e ev -> snd e < card (fst e)) /\
     NoDup (query_elim D t (q_sub D r) Q ev) /\
-    (forall v i, In v (map fst ev) -> i < length (cliques D t) -> In v (clq D t i) -> In i (q_sub D r)).
+    (forall v i, In v (Q ++ map fst ev) -> i < length (cliques D t) -> In v (clq D t i) -> In i (q_sub D r)).
 Proof.
   unfold query_cert, peel_to.
   set (order := greedy_peel D (length (cliques D t)) t (all_cl D t) (all_ed D t) (q_sub D r)).
@@ -296,7 +370,7 @@ Proof.
   specialize (H5 i). assert (Hin : In i (all_cl D t)) by (apply in_seq; lia). apply H5 in Hin.
   apply orb_true_iff in Hin. destruct Hin as [Hin|Hin]; [|apply memn_In; exact Hin].
   apply negb_true_iff in Hin. exfalso.
-  assert (Ht : existsb (fun v0 => memv v0 (clq D t i)) (map fst ev) = true).
+  assert (Ht : existsb (fun v0 => memv v0 (clq D t i)) (Q ++ map fst ev) = true).
   { apply existsb_exists. exists v. split; [exact Hv|apply memv_In; exact Hvi]. }
   congruence.
 Qed.
@@ -306,15 +380,16 @@ End Query.
 Theorem query_eq_posterior (D : dsr) (card : var -> nat) (t : ctree D) (st : bstate D) Q ev r :
   tree_ok D card t -> Inv D card t st -> is_converged D card t st = true ->
   bp_query D card t st Q ev = Some r -> query_cert D card t Q ev r = true ->
-  exists order,
-    forall a, valid card a ->
-      feval D card (q_factor D r) a =
-      posterior_num D card t ev (query_elim D t (q_sub D r) Q ev ++ pvars D card t st order) a.
+  exists vs,
+    enumerates_complement vs (all_vars D t) (Q ++ map fst ev) /\
+    forall a, valid card a -> feval D card (q_factor D r) a = posterior_num D card t ev vs a.
 Proof.
   intros Htok HI Hc Hq Hcert. destruct (is_converged_sound D card t st Htok HI Hc) as [Hset Hag].
   destruct (query_cert_sound D card t Q ev r Hcert) as [order [rem [esub [ks [H1 [H2 [H3 [H4 [H5 [H6 [H7 H8]]]]]]]]]]].
-  exists order. intros a Ha.
-  apply (bp_query_posterior D card t st Htok HI Hset Hag Q ev r order rem esub ks); assumption.
+  exists (query_elim D t (q_sub D r) Q ev ++ pvars D card t st order). split.
+  - apply (summed_vars_enumerate D card t st HI Q ev (q_sub D r) order rem esub); assumption.
+  - intros a Ha. apply (bp_query_posterior D card t st Htok HI Hset Hag Q ev r order rem esub ks); try assumption.
+    intros v i Hv. apply H8. apply in_or_app. right. exact Hv.
 Qed.
 
 (* a clique with several factors: its initial belief is their product, so the joint of the tree built by
